@@ -14,10 +14,10 @@ func init() {
 		Level: "exploration",
 		Rule: "exhaustive small scope: every chain of at most 3 steps (quick: 2) over {.a .b .* [*] [0] [1] [last] [0 to 1] [1 to last] [0,1] .** .**{1} .**{1 to 2} ?(@.a == 1) ?(@ > 0) ?(exists(@.b))} x every JSON document of at most 5 nodes (quick: 4) over leaves {1, \"s\", null, [], {}} and keys a, b, in lax and strict mode - the offending element thereby appears at every position of every array and subscript list; plus random larger accessor/filter paths. " +
 			"Oracle: the structural subset of the reference evaluator (all member orders) and the direct assertion that lax accessor paths never fail. Non-trivial: the chain has >= 2 steps or the document is a container; distinct by (path, document)",
-		Run:    runC07,
-		Replay: replayC07,
+		Run:          runC07,
+		Replay:       replayC07,
 		MinExercised: map[string]int64{"lax.noerror": 50000, "lax.items": 50000, "strict.error-iff-mismatch": 20000, "strict.items": 20000},
-		Assumptions: []string{"strict array accessors applied to non-arrays below .** are not pinned by the statement (only member accessors are) and are skipped"},
+		Assumptions:  []string{"below .** in strict mode: member accessors and [*] skip the nodes they do not apply to; a subscript [i] applied to a non-array is the structural error it is everywhere else (the exception in the statement names member accessors only), and its out-of-range positions are clipped"},
 	})
 }
 
